@@ -149,6 +149,7 @@ class ScipyStubs:
         if conv and self.root_zero:
             h.assume(eq(f(r, *args), 0), "root_scalar contract: a converged result is a zero of "
                      "the function it was given")
+        self.last_root = r
         return Result(root=r, converged=conv, flag="converged" if conv else "convergence error")
 
     def brentq(self, f, a, b, args=(), xtol=None, rtol=None, **kw):
